@@ -80,9 +80,9 @@ func predict(v cty.Value, t reflect.Type) (verdict, string) {
 				return vFree, "empty-collection-of-other-element-type"
 			}
 			return res, cls
-		case reflect.Struct:
-			return vFree, pair // the docs only promise tuples and objects for structs; a refusal is expected but not stated
 		}
+		// structs correspond to objects and tuples only (docs/gocty.md), in both
+		// directions: a list or set into a struct is a shape mismatch
 		return vErr, pair
 	case ty.IsMapType():
 		if isBig(t) {
@@ -100,10 +100,8 @@ func predict(v cty.Value, t reflect.Type) (verdict, string) {
 				return vFree, "empty-collection-of-other-element-type"
 			}
 			return res, cls
-		case reflect.Struct:
-			return vFree, pair // a cty map is not documented as a source for structs; left open
 		}
-		return vErr, pair
+		return vErr, pair // incl. map -> struct: structs correspond to objects and tuples only
 	case ty.IsObjectType():
 		if isBig(t) {
 			return vErr, pair // big.Int / big.Float are number targets, not attribute containers
@@ -141,7 +139,9 @@ func predict(v cty.Value, t reflect.Type) (verdict, string) {
 			}
 			return res, cls
 		case reflect.Map:
-			return vFree, pair // "map or object value is required" in the library's own message: left open
+			// ToCtyValue encodes a Go map as an object and the library's own message for map
+			// targets reads "map or object value is required"; decoding is not documented: left open
+			return vFree, pair
 		}
 		return vErr, pair
 	case ty.IsTupleType():
@@ -163,7 +163,7 @@ func predict(v cty.Value, t reflect.Type) (verdict, string) {
 				return predict(v.Index(cty.NumberIntVal(int64(i))), t.Field(i).Type)
 			})
 		case reflect.Slice, reflect.Array:
-			return vFree, pair
+			return vFree, pair // ToCtyValue encodes a Go slice as a tuple; decoding one is not documented: left open
 		}
 		return vErr, pair
 	case ty.IsCapsuleType():
